@@ -46,7 +46,7 @@ ASSUMPTIONS = [
     "a resource and a sub-site registered at the same path ('odd design, not fully supported') is never generated; remove_resource is only called for registered paths",
     "PathCapable leaves without get_resources_as_linkheader contribute no links",
 ]
-REQUIRED_MONITORS = {
+REQUIRED_MONITORS = {"wkc_by_path_abbreviation": 1000, 
     "quick": {"route_handler": 30000, "route_404": 40000, "stripped_path": 30000, "request_uri": 30000, "nested_hop": 10000, "two_level_hop": 2500, "longest_prefix": 1000, "exact_over_subsite": 1500, "empty_remainder_decisive": 200, "after_add": 8000, "after_remove": 3000, "wkc_listing": 7000, "wkc_listing_nested": 4000, "wkc_filter": 8000, "wkc_filter_star": 4000, "wkc_hidden": 3000, "path_sweep": 4000, "direct_render": 50000},
     "thorough": {"route_handler": 900000, "route_404": 1200000, "stripped_path": 900000, "request_uri": 900000, "nested_hop": 300000, "two_level_hop": 75000, "longest_prefix": 30000, "exact_over_subsite": 45000, "empty_remainder_decisive": 6000, "after_add": 240000, "after_remove": 90000, "wkc_listing": 210000, "wkc_listing_nested": 120000, "wkc_filter": 240000, "wkc_filter_star": 120000, "wkc_hidden": 90000, "path_sweep": 120000, "direct_render": 1500000},
 }
@@ -703,6 +703,10 @@ class Scenario:
         all_links = [l for l, _rm in model]
         query = self.gen_query(all_links) if forced_query is None else forced_query
         opts = tuple((rc.URI_PATH, s.encode()) for s in (".well-known", "core")) + tuple((rc.URI_QUERY, q.encode()) for q in query)
+        if r.random() < 0.2:
+            # the same path in its abbreviated form (Uri-Path-Abbrev 0, draft-ietf-core-uri-path-abbrev; option 13)
+            opts = ((13, b""),) + tuple((rc.URI_QUERY, q.encode()) for q in query)
+            rep.monitor("wkc_by_path_abbreviation")
         del self.hlog[:]
         first, body = await self.client.get_all_blocks(opts)
         code = rc.code_str(first.code)
